@@ -1,5 +1,6 @@
 import TexcraftModel.Lemmas.C08
 import TexcraftModel.Lemmas.C08Run
+import TexcraftModel.Lemmas.C08Macros
 
 /-!
 # C08 — checkpointing a VM is transparent (property theorems)
@@ -151,5 +152,127 @@ theorem prefix_statement_false : ¬ C08_prefix_full_statement := by
   intro h
   have := h [.define 0 (.act 0) (.mac 5)] [.read (.cmd (.act 0))] [.unit, .cmd none none] (by decide)
   exact absurd this (by decide)
+
+/-! ## Deepening round: the macro table as coded, macro sharing, the pending `\global` flag
+
+`Model/C08Macros.lean` transcribes the closure `to_serializable` of `SerializableMap::new` with its
+two pieces of mutable state (`macros`, `macros_de_dup` keyed by `Rc::as_ptr`) and the walk over the
+control sequences and then the active characters. The driver evaluates *this* serialiser
+(`runCheckpointedInc id`). -/
+
+/-- The serialiser as coded is the serialiser described by its final table, for every injective
+de-duplication key (distinct live `Rc`s have distinct addresses), every table and every VM state. -/
+theorem serializer_as_coded (key : Nat → Nat) (hk : KeyInj key) (T : Table) (vm : VMState) :
+    serializeInc key T vm = serialize true T vm :=
+  serializeInc_eq key hk T vm
+
+/-- Checkpoint transparency for the serialiser as coded. -/
+theorem checkpoint_transparent_as_coded (key : Nat → Nat) (hk : KeyInj key) (T : Table)
+    (hT : NameTableSound T) (vm : VMState) (hc : Inv vm.cmds) (ha : Inv vm.active) (s : Ser)
+    (hs : serializeInc key T vm = .ok s) :
+    ∃ vm', deserialize T s = .ok vm' ∧
+      ∀ (cfg : Variant) (hist : List C01.Op), (C01.run cfg vm' hist).2 = (C01.run cfg vm hist).2 :=
+  checkpoint_transparent T hT vm hc ha s (serializeInc_eq key hk T vm ▸ hs)
+
+/-- … and in the split form the driver evaluates. -/
+theorem checkpoint_transparent_run_as_coded (key : Nat → Nat) (hk : KeyInj key) (cfg : Variant)
+    (T : Table) (hT : NameTableSound T) (pre post : List C01.Op) (outs : List Out)
+    (h : runCheckpointedInc key cfg T pre post = some outs) :
+    outs = (C01.run cfg VMState.init (pre ++ post)).2 := by
+  apply checkpoint_transparent_run cfg T hT pre post outs
+  rw [← h]
+  simp only [runCheckpointedInc, runCheckpointed, checkpoint, serializeInc_eq key hk]
+  by_cases hf : (C01.run cfg VMState.init pre).2.any Out.fatal = true
+  · simp only [hf, if_true]
+  · simp only [hf]
+    cases hs : serialize true T (C01.run cfg VMState.init pre).1 with
+    | ok s => cases hd : deserialize T s <;> rfl
+    | panic => rfl
+    | fuel => rfl
+
+/-- **Macro sharing is written out exactly.** Two names (control sequences or active characters)
+that are macros are given the same index of the serialised macro table iff they were the same
+macro (`\let` aliases share, separate `\def`s do not), for every map. -/
+theorem macro_sharing_preserved (key : Nat → Nat) (hk : KeyInj key) (T : Table) (vm : VMState)
+    (hc : Inv vm.cmds) (ha : Inv vm.active) (s : Ser) (hs : serializeInc key T vm = .ok s)
+    (t1 t2 : CTarget) (n1 n2 : Nat)
+    (h1 : getCmd vm t1 = some (.mac n1)) (h2 : getCmd vm t2 = some (.mac n2)) :
+    ∃ u1 u2, s.get t1 = some (.macro u1) ∧ s.get t2 = some (.macro u2) ∧ (u1 = u2 ↔ n1 = n2) := by
+  rw [serializeInc_eq key hk] at hs
+  obtain ⟨ci, ai, sc, sa, sv, hci, hai, hsc, hsa, _, rfl⟩ := serialize_ok T vm s hs
+  have one : ∀ (t : CTarget) (n : Nat), getCmd vm t = some (.mac n) →
+      n ∈ macrosOf ai (macrosOf ci []) ∧
+      Ser.get { cmds := GMap.fromIter sc, active := GMap.fromIter sa,
+                macros := macrosOf ai (macrosOf ci []), save := sv, vars := vm.vars,
+                font := vm.font, fontSave := vm.fontSave, scopeBit := vm.scopeBit } t
+        = some (.macro ((macrosOf ai (macrosOf ci [])).idxOf n)) := by
+    intro t n h
+    cases t with
+    | cs k => exact ser_get_mac_one T _ vm.cmds hc ci hci sc hsc k n h
+    | act k => exact ser_get_mac_one T _ vm.active ha ai hai sa hsa k n h
+  obtain ⟨m1, g1⟩ := one t1 n1 h1
+  obtain ⟨m2, g2⟩ := one t2 n2 h2
+  exact ⟨_, _, g1, g2, idxOf_inj _ n1 n2 m1 m2⟩
+
+/-- … and read back exactly: after the restore two names are the same command iff they were. -/
+theorem macro_sharing_after_restore (key : Nat → Nat) (hk : KeyInj key) (T : Table)
+    (hT : NameTableSound T) (vm : VMState) (hc : Inv vm.cmds) (ha : Inv vm.active) (s : Ser)
+    (hs : serializeInc key T vm = .ok s) :
+    ∃ vm', deserialize T s = .ok vm' ∧
+      ∀ t1 t2 : CTarget, (getCmd vm' t1 = getCmd vm' t2 ↔ getCmd vm t1 = getCmd vm t2) := by
+  rw [serializeInc_eq key hk] at hs
+  obtain ⟨vm', hd, he⟩ := deserialize_serialize T hT vm hc ha s hs
+  refine ⟨vm', hd, fun t1 t2 => ?_⟩
+  rw [getCmd_congr he t1, getCmd_congr he t2]
+
+/-- A de-duplication key that is **not** injective breaks the property (mutant 02 of the sweep,
+`addr & !0xff`; here `n / 2`): two different macros collapse into one. -/
+example :
+    runCheckpointedInc (· / 2) Variant.fixed stdTable
+        [.define 0 (.cs 0) (.mac 0), .define 0 (.cs 1) (.mac 1)] [.read (.cmd (.cs 0))]
+      = some [.unit, .unit, .cmd (some (.mac 1)) none] ∧
+    runCheckpointedInc id Variant.fixed stdTable
+        [.define 0 (.cs 0) (.mac 0), .define 0 (.cs 1) (.mac 1)] [.read (.cmd (.cs 0))]
+      = some [.unit, .unit, .cmd (some (.mac 0)) none] ∧
+    KeyInj id := by
+  refine ⟨by decide, by decide, fun a b h => h⟩
+
+/-- **The pending `\global` flag is `Local` at every checkpoint the API allows**: every VM reached
+by a program (a run that returned) has `scopeBit = .loc` — a `\global` with nothing after it does
+not return `Ok`. Hence a deserialiser that forgets the flag (mutant 21) restores the same VM. -/
+theorem reachable_scope_local (cfg : Variant) (ops : List C01.Op) :
+    (C01.run cfg VMState.init ops).1.scopeBit = .loc :=
+  C08.reachable_scope_local cfg ops VMState.init rfl
+
+theorem forgetting_scope_is_identity (cfg : Variant) (ops : List C01.Op) :
+    { (C01.run cfg VMState.init ops).1 with scopeBit := Scope.loc } = (C01.run cfg VMState.init ops).1 := by
+  have h := reachable_scope_local cfg ops
+  cases hv : (C01.run cfg VMState.init ops).1 with
+  | mk vars save cmds active font fontSave scopeBit =>
+    rw [hv] at h
+    simp only [] at h
+    subst h
+    rfl
+
+/-! ### The input stack at a checkpoint (`Model/C08Input.lean`) -/
+
+/-- **A run that returns leaves nothing pending.** When `next_unexpanded` answers `Ok(None)` — the
+only way `VM::run` returns `Ok` — there is no pending expansion, no undelivered token and no
+source left on the stack, whatever the stack was: every checkpoint of the property is taken in
+this state, so `Source.expansions` and the sources' read positions carry no information there
+(mutant 24 of the sweep is equivalent). -/
+theorem run_returns_at_rest (s : C08.Input.Stack) (h : s.next.1 = .endOfInput) :
+    s.next.2 = { cur := { expansions := [], lexer := [] }, sources := [] } ∧ s.remaining = [] :=
+  C08.Input.next_endOfInput s.sources s.cur h
+
+/-- `next_unexpanded` delivers exactly the first token of the remaining input, for every stack
+(pending expansions first, then the lexer, then the sources below). -/
+theorem next_delivers_first_remaining (s : C08.Input.Stack) (t : Nat) (h : s.next.1 = .token t) :
+    s.remaining = some t :: s.next.2.remaining :=
+  C08.Input.next_token s.sources s.cur t h
+
+example :
+    (C08.Input.Stack.next { cur := ⟨[], []⟩, sources := [⟨[], []⟩, ⟨[7], [some 8]⟩] }).1 = .token 7 ∧
+    (C08.Input.Stack.next { cur := ⟨[], []⟩, sources := [⟨[], []⟩] }).1 = .endOfInput := by decide
 
 end C08.Thm
